@@ -4,13 +4,14 @@
 
   OBLIGATIONS (checked by the harness: every name is a theorem of this file, axioms audited):
     strategies_order supports_probe_agrees union_is_first_nonNone single_eq_generic
-    forest_positional_differs
+    forest_positional_differs true_pred_irrelevant
 -/
 import Genshi.Model.Path
 import Genshi.Model.PathParse
 import Genshi.Model.PathStrategy
 import Genshi.Gen.Path
 import Genshi.Lemmas.PathSingle
+import Genshi.Lemmas.PathSpelling
 namespace Genshi.Props.C17
 open Genshi Genshi.Path
 
@@ -118,5 +119,82 @@ theorem forest_positional_differs :
       = [.none, .none, .none, .none, .none, .bool true, .none, .none] ∧
     runTest (pathTest [pathB2] false (some .generic)).1 [] [] (pathTest [pathB2] false (some .generic)).2 forest2
       = [.none, .none, .none, .none, .none, .none, .none, .none] := by decide +kernel
+
+/-! ## An always-true predicate is irrelevant -/
+
+/-- insert the predicate `t` at place `k` of the predicate list of step `i` -/
+def insertPred (p : LocPath) (i k : Nat) (t : Expr) : LocPath :=
+  p.mapIdx fun j s => if j == i then { s with preds := s.preds.take k ++ t :: s.preds.drop k } else s
+
+theorem stepEq_insert (ns : NsMap) (vs : Vars) (t : Expr) (ht : AlwaysTrue ns vs t) (s : Step) (k : Nat) :
+    StepEq ns vs { s with preds := s.preds.take k ++ t :: s.preds.drop k } s := by
+  refine ⟨rfl, rfl, ?_, ?_⟩
+  · intro e cous cnum missed store
+    have := gPreds_insert ns vs t ht e cous (s.preds.take k) (s.preds.drop k) cnum missed store
+    simpa using this
+  · intro e cnum cs
+    have := sPreds_insert ns vs t ht e (s.preds.take k) (s.preds.drop k) cnum cs
+    simpa using this
+
+theorem all2_insert (ns : NsMap) (vs : Vars) (t : Expr) (ht : AlwaysTrue ns vs t) (k : Nat) :
+    ∀ (p : LocPath) (i : Nat), All2 (StepEq ns vs) (insertPred p i k t) p := by
+  intro p
+  induction p with
+  | nil => intro i; exact All2.nil
+  | cons s p ih =>
+    intro i
+    unfold insertPred
+    rw [List.mapIdx_cons]
+    refine All2.cons ?_ ?_
+    · by_cases h : (0 == i) = true
+      · simp only [h, if_true]; exact stepEq_insert ns vs t ht s k
+      · simp only [h, Bool.false_eq_true, if_false]; exact StepEq.refl ns vs s
+    · cases i with
+      | zero =>
+        have hid : ∀ (l : List Step), List.mapIdx (fun (_ : Nat) (s : Step) => s) l = l := by
+          intro l; induction l with
+          | nil => rfl
+          | cons a l ih' => simp [List.mapIdx_cons, ih']
+        have : (List.mapIdx (fun j s => if (j + 1 == 0) = true then
+            ({ s with preds := s.preds.take k ++ t :: s.preds.drop k } : Step) else s) p) = p := by
+          simp [hid]
+        rw [this]
+        have hrefl : ∀ (l : List Step), All2 (StepEq ns vs) l l := by
+          intro l; induction l with
+          | nil => exact All2.nil
+          | cons a l ih' => exact All2.cons (StepEq.refl ns vs a) ih'
+        exact hrefl p
+      | succ i =>
+        have := ih i
+        unfold insertPred at this
+        simpa using this
+
+/-- **true_pred_irrelevant.**  Let `t` be a predicate that is true at every event and is not a
+    position test (`true()`, `1=1`, `not(false())`, …).  Inserting `[t]` anywhere among the
+    predicates of any step of a location path changes nothing: GenericStrategy and
+    SingleStepStrategy, run on the step lists of the two spellings, go through the same states
+    and report the same result at every event of every stream (no hypothesis on the stream).
+    The counters of positional predicates are unaffected because only position tests consume a
+    counter slot.
+
+    Scope: stated on the step lists the strategies run (`gStep` / `sStep`); for the relative
+    mode `gSteps p false` only prepends `self::*`, so this is the statement about `p` itself
+    (corollary below).  As a pattern a predicate on a leading `.` stops that step from being
+    dropped (finding C17-pattern-first-step-position), and a path SimplePathStrategy supports is
+    handed to GenericStrategy once it has a predicate: that pair is covered by
+    `simple_eq_generic`. -/
+theorem true_pred_irrelevant (ns : NsMap) (vs : Vars) (t : Expr) (ht : AlwaysTrue ns vs t)
+    (steps : List Step) (i k : Nat) :
+    (∀ (st : GState) (e : Event),
+        gStep (insertPred steps i k t) ns vs st e = gStep steps ns vs st e) ∧
+    (∀ (ic : Bool) (st : SState) (e : Event),
+        sStep (insertPred steps i k t) ic ns vs st e = sStep steps ic ns vs st e) :=
+  ⟨fun st e => gStep_congr ns vs _ _ (all2_insert ns vs t ht k steps i) st e,
+   fun ic st e => sStep_congr ns vs _ _ (all2_insert ns vs t ht k steps i) ic st e⟩
+
+-- `true()` and `1=1` are such predicates
+example (ns : NsMap) (vs : Vars) : AlwaysTrue ns vs (.fn0 .true_) := fun e => by cases e <;> rfl
+example (ns : NsMap) (vs : Vars) :
+    AlwaysTrue ns vs (.cmp .eq (.num (.dec false 1 0)) (.num (.dec false 1 0))) := fun _ => rfl
 
 end Genshi.Props.C17
